@@ -1384,12 +1384,34 @@ func (e *BigMessage) ReadAll() ([]byte, error) {
 	}
 	e.Client.bigMessage = nil
 
+	c := e.Client
+	if c.PauseTimeout != 0 {
+		// Abandon timer to prevent waking up the system for no good reason.
+		defer c.readConn.SetReadDeadline(time.Time{})
+	}
+
 	message := make([]byte, e.Size)
-	_, err := io.ReadFull(e.Client.bufr, message)
-	if err != nil {
+	for done := 0; ; {
+		if c.PauseTimeout != 0 {
+			err := c.readConn.SetReadDeadline(time.Now().Add(c.PauseTimeout))
+			if err != nil {
+				return nil, err // deemed critical
+			}
+		}
+
+		n, err := io.ReadFull(c.bufr, message[done:])
+		done += n
+		if err == nil {
+			return message, nil
+		}
+
+		// Allow deadline expiry if at least one byte was transferred.
+		var ne net.Error
+		if n != 0 && errors.As(err, &ne) && ne.Timeout() {
+			continue
+		}
 		return nil, err
 	}
-	return message, nil
 }
 
 var errDupe = errors.New("mqtt: duplicate reception")
